@@ -39,6 +39,8 @@ for i, k in enumerate(sc['kinds']):
         subprocess.run(['gcc', '-c', '-o', os.path.join(w, n), os.path.join(w, 'tmp_o.c')], check=True); os.unlink(os.path.join(w, 'tmp_o.c'))
     names.append(n)
 if sc.get('unreadable', -1) >= 0: os.unlink(os.path.join(w, names[sc['unreadable']]))
+if sc.get('in_is_dir', -1) >= 0:               # the input path exists but is a directory: open() succeeds, reading fails
+    pth = os.path.join(w, names[sc['in_is_dir']]); os.unlink(pth); os.makedirs(pth)
 # every path the command could write gets a sentinel first
 cands = ['a.out', 'out.bin'] + ['in%d.s' % i for i, k in enumerate(sc['kinds']) if k == 'C'] + ['in%d.o' % i for i, k in enumerate(sc['kinds']) if k != 'O']
 for c in cands:
@@ -48,7 +50,7 @@ rd = lambda c: open(os.path.join(w, c), 'rb').read() if os.path.isfile(os.path.j
 before = {c: rd(c) for c in os.listdir(w)}
 if sc.get('out_is_dir'):                       # the output path exists and is a directory: it cannot be written, even by root
     tgt = os.path.join(w, sc['out_is_dir']); os.unlink(tgt) if os.path.exists(tgt) else None; os.makedirs(tgt)
-args = [os.path.join(src, 'chibicc')] + {'E': ['-E'], 'S': ['-S'], 'C': ['-c'], 'L': []}[sc['mode']] + (['-o', 'out.bin'] if sc['has_o'] else []) + names
+args = [os.path.join(src, 'chibicc')] + {'E': ['-E'], 'S': ['-S'], 'C': ['-c'], 'L': []}[sc['mode']] + (['-o', sc.get('out_path', 'out.bin')] if sc['has_o'] else []) + names
 env = dict(os.environ, PATH=sh + ':' + os.environ['PATH'])
 p = subprocess.run(args, cwd=w, env=env, capture_output=True, timeout=60)
 after = {c: rd(c) for c in os.listdir(w)}
